@@ -46,6 +46,8 @@ def gen_cases(tier, seed):
             # derivatives stay finite): then only reporting ever evaluates the failing quantity at rejected points
             case["region_components"] = ["obj"] if rng.random() < 0.5 else ["obj", "obj_grad", "cons", "cons_jac"]
             case["cfg"]["lamb_init"] = float(10.0 ** rng.uniform(-3, 0))   # long first steps overshoot
+        if rng.random() < 0.2 and cfgd.get("active") != "Explicit":
+            cfgd["active_set_method"] = "half"    # user rule tau = 0.5 / lamb (reads the controller's lambda)
         case["exhaustive_display"] = bool(short)
         case["nvariants"] = 10 if tier == "quick" else 14
         cases.append(case)
